@@ -90,6 +90,25 @@ CATALOGUE = {
 }
 
 
+def _named(module, specs):
+    """Register priors through the public name-based API: register_prior(name, prior, "<param>")."""
+    for path, pub, prior in specs:
+        owner = module.get_submodule(path) if path else module
+        owner.register_prior(pub + "_prior", prior, pub)
+    return module
+
+
+CATALOGUE.update(
+    {
+        "GaussianLikelihood_namedprior": lambda: _named(L.GaussianLikelihood(), [("noise_covar", "noise", _gamma())]),
+        "ScaleRBF_namedprior": lambda: _named(
+            K.ScaleKernel(K.RBFKernel(ard_num_dims=2)), [("", "outputscale", _gamma()), ("base_kernel", "lengthscale", _lognormal())]
+        ),
+        "PeriodicKernel_namedprior": lambda: _named(K.PeriodicKernel(), [("", "period_length", _lognormal()), ("", "lengthscale", _gamma())]),
+    }
+)
+
+
 def build(entry, dtype, applied=()):
     """Construct the module; `applied` = constraint replacements (part of the architecture) to re-apply."""
     with warnings.catch_warnings():
@@ -347,11 +366,16 @@ def check_all(out, i, module, ref, entry, dtype_name, where):
                 out.note_diff(str(val.dtype).replace("torch.", ""), diff / scale)
         # (vi) visited raw value: inverse(transform(raw)) ~ raw where not saturated; transform monotone over visited raws
         if raw_ok and float(rawp.abs().max()) < 20.0:
-            back = c.inverse_transform(c.transform(rawp))
-            if finite(back):
-                d = float((back - rawp).abs().max())
-                if not d <= (1e-2 if val.dtype == torch.float32 else 1e-6) * max(1.0, float(rawp.abs().max())):
-                    out.violate("inverse_not_inverse", i, "%s.%s: inverse_transform(transform(raw)) differs from raw by %.3g" % (entry, pub, d), **cls)
+            # compared in value space: near saturation the raw value is ill-determined by the value (log of a
+            # cancelled difference), while transform(inverse(value)) == value must still hold to rounding
+            v0 = c.transform(rawp)
+            back = c.inverse_transform(v0)
+            if finite(back) and finite(v0):
+                v1 = c.transform(back)
+                sc = max(float(v0.abs().max()), *(float(b.abs().max()) for b in (c.lower_bound, c.upper_bound) if finite(b)), 1e-30)
+                d = float((v1 - v0).abs().max())
+                if not d <= rtol_for(val.dtype) * sc:
+                    out.violate("inverse_not_inverse", i, "%s.%s: transform(inverse_transform(v)) differs from v = transform(raw) by %.3g (scale %.3g)" % (entry, pub, d, sc), **cls)
     # (v) prior closures read the current value
     for pname, pmod, prior, closure, setting in sorted(module.named_priors(), key=lambda t: t[0]):
         try:
@@ -506,6 +530,9 @@ def execute(history):
                     bad = torch.full(shape, float("-inf"), dtype=dtype)
                 elif bk == "shape":
                     bad = good.reshape(-1)[:1].expand(max(good.numel(), 1) + 2, 3).clone()
+                if bad is not None and op.get("u", 0) < 0.3 and bk in ("below", "above") and bad.numel() >= 1 and c.lower_bound.numel() == 1 and c.upper_bound.numel() == 1:
+                    bad = float(bad.reshape(-1)[0])  # out-of-bounds Python float through the public setter
+                    out.stats["probe:bad_assignment_as_python_float"] += 1
                 if bad is None:
                     out.stats["skipped:bad_kind_not_applicable"] += 1
                     tag = "skipped"
@@ -513,15 +540,15 @@ def execute(history):
                     before = snapshot(module)
                     try:
                         setattr(owner, pub, bad)
-                        out.violate("bad_assignment_accepted", i, "%s.%s = %s (%s; bounds [%s, %s]) was accepted; it now reads %s" % (entry, pub, _fmt(bad), bk, _fmt(lo), _fmt(hi), _fmt(read(owner, pub))), bk=bk, **cls)
+                        out.violate("bad_assignment_accepted", i, "%s.%s = %s (%s; bounds [%s, %s]) was accepted; it now reads %s" % (entry, pub, _fmt(torch.as_tensor(bad)), bk, _fmt(lo), _fmt(hi), _fmt(read(owner, pub))), bk=bk, **cls)
                         ref.value[name] = None
-                    except (RuntimeError, ValueError, TypeError) as e:
+                    except (RuntimeError, ValueError, TypeError, AttributeError) as e:
                         out.stats["fault:rejected_assignment_" + bk] += 1
                         why = same_state(before, snapshot(module))
                         out.stats["probe:rejected_assignment_state_unchanged"] += 1
                         nontrivial = True
                         if why and not (isinstance(e, ValueError) and "prior" in str(e)):
-                            out.violate("rejected_assignment_changed_state", i, "%s.%s = %s (%s) raised %s but %s" % (entry, pub, _fmt(bad), bk, type(e).__name__, why), bk=bk, **cls)
+                            out.violate("rejected_assignment_changed_state", i, "%s.%s = %s (%s) raised %s but %s" % (entry, pub, _fmt(torch.as_tensor(bad)), bk, type(e).__name__, why), bk=bk, **cls)
                             ref.value[name] = None
                     tag = "set_bad[%s,%s]" % (bk, ckind(c))
             elif k == "init_raw":
